@@ -363,7 +363,7 @@ def continue_case_st(draw):
     prog = draw(gen.program_st(faults=False, max_features=2, outcomes=["pass", "pass", "fail", "raise"], with_async=False,
                                cfg=gen.cfg_st(flags=("stop",), p_tags=0.3)))
     prog["cfg"]["continue_after_failed"] = True
-    return {"kind": "cli" if draw(st.integers(0, 11)) == 0 else "run", "program": prog}
+    return {"kind": "cli" if draw(st.integers(0, 39)) == 0 else "run", "program": prog}
 
 
 @st.composite
@@ -402,12 +402,12 @@ def autoretry_outline_case(draw):
 def explore(rec):
     quick = rec.tier == "quick"
     rec.enum("core-enumeration", core_enumeration())
-    rec.hyp("random-programs", run_case_st(typed=True), 6000 if quick else 120000)
+    rec.hyp("random-programs", run_case_st(typed=True), 5000 if quick else 120000)
     rec.hyp("metamorphic", meta_case_st(), 1500 if quick else 30000)
     rec.hyp("cli", run_case_st(max_features=2, typed=True).map(lambda c: dict(c, kind="cli")),
             48 if quick else 640)
     rec.hyp("runner-route", run_case_st(max_features=2, typed=True, cfg=gen.cfg_st(flags=("stop", "dry_run", "wip_flag"))).map(
-        lambda c: dict(c, kind="runner")), 1500 if quick else 30000)
+        lambda c: dict(c, kind="runner")), 1200 if quick else 30000)
     # the documented switch Scenario.continue_after_failed_step: the steps after a failing one still run (and may pass);
     # the scenario and the run have failed all the same (in-process and as exit code of the child process)
     rec.hyp("continue-after-failed-step", continue_case_st(), 1200 if quick else 25000)
